@@ -36,11 +36,15 @@ Links ==
   \* ... and the constructor interface is reached with a procedure qualifier, also when the item part names nothing
   \cup {[n |-> "holder", q1 |-> q, item |-> i, q2 |-> ""] : q \in {"proc", "procedure"}, i \in {"", "missing"}}
   \cup {[n |-> "holder", q1 |-> "type", item |-> "missing", q2 |-> ""]}
+  \* an abstract interface of alpha: the kinds "interface" and "absinterface" both select abstract interfaces (user guide)
+  \cup {[n |-> "absi", q1 |-> q, item |-> "", q2 |-> ""] : q \in {"", "interface", "absinterface"}}
+  \* a type that extends holder and inherits its generic binding gnb: the item is looked up in the named component
+  \cup {[n |-> "heir", q1 |-> "type", item |-> i, q2 |-> q2] : i \in {"gnb"}, q2 \in {"", "bound"}}
   \* `rst` is a subroutine of alpha and of another module: defined only where the context decides
   \cup {[n |-> "rst", q1 |-> q, item |-> "", q2 |-> ""] : q \in {"", "subroutine"}}
   \cup {[n |-> "main", q1 |-> q, item |-> "", q2 |-> ""] : q \in {"", "program"}}
 WellFormedLink(l) == (l.item = "" => l.q2 = "")
-                     /\ (l.q2 = "variable" => l.item = "tgt") /\ (l.q2 \in {"type", "interface"} => l.item = "holder") /\ (l.q2 = "bound" => l.item = "bnd")
+                     /\ (l.q2 = "variable" => l.item = "tgt") /\ (l.q2 \in {"type", "interface"} => l.item = "holder") /\ (l.q2 = "bound" => l.item \in {"bnd", "gnb"})
                      /\ (l.item = "holder" => l.q2 # "")
 
 Init == w = << >> /\ ctx = "" /\ link = << >> /\ phase = "init" /\ out = <<>>
@@ -76,13 +80,16 @@ ProjFind(name, q) ==
   ELSE IF name = "holder" /\ q \in {"", "type"} THEN <<"alpha", "holder">>
   ELSE IF name = "holder" /\ q \in {"proc", "procedure"} THEN <<"alpha", "holder", "iface">>
   ELSE IF name = "main" /\ q \in {"", "program"} THEN <<"main">>
+  ELSE IF name = "absi" /\ q \in {"", "interface", "absinterface"} THEN <<"alpha", "absi">>
+  ELSE IF name = "heir" /\ q \in {"", "type"} THEN <<"alpha", "heir">>
   ELSE <<>>
 
 Qualify(owner, name) == IF owner = "holder" THEN <<"alpha", "holder", name>> ELSE IF owner = "ctxproc" THEN <<"alpha", "ctxproc", name>> ELSE <<owner, name>>
 
 ItemIn(target, item, q2) ==      \* entity of the item inside a found component, or "none"
   LET owner == CASE target = <<"alpha">> -> "alpha" [] target = <<"alpha", "holder">> -> "holder" [] target = <<"main">> -> "main" [] OTHER -> ""
-  IN IF owner = "alpha" /\ item = "holder" /\ q2 = "interface" THEN <<"alpha", "holder", "iface">>
+  IN IF target = <<"alpha", "heir">> /\ item = "gnb" THEN <<"alpha", "heir", "gnb">>
+     ELSE IF owner = "alpha" /\ item = "holder" /\ q2 = "interface" THEN <<"alpha", "holder", "iface">>
      ELSE IF owner # "" /\ HasChild(owner, item) /\ (q2 = "" \/ q2 = ChildKind(owner, item))
      THEN Qualify(owner, item) ELSE <<>>
 
